@@ -67,6 +67,18 @@ type InlineTyped struct {
 	B map[string]bool   `struct:",inline"`
 }
 
+type InlineIfc struct {
+	A string
+	I interface{} `struct:",inline"`
+	Z int
+}
+
+type InlineFolder struct {
+	A string
+	T Celsius `struct:",inline"`
+	Z []string
+}
+
 type OmitAll struct {
 	S string            `struct:"s,omitempty"`
 	L []int             `struct:"l,omitempty"`
@@ -356,6 +368,21 @@ var Catalogue = []TypeEntry{
 	})),
 	foldOnly(mk("InlineTyped", true, func(c *simkit.Choices) InlineTyped {
 		return InlineTyped{S: genMap(c, genStr), N: genMap(c, func(c *simkit.Choices) int { return c.N(100) }), B: genMap(c, func(c *simkit.Choices) bool { return c.Bool() })}
+	})),
+	foldOnly(mk("InlineIfc", true, func(c *simkit.Choices) InlineIfc {
+		v := InlineIfc{A: genStr(c), Z: c.N(100)}
+		switch c.N(3) {
+		case 0:
+			v.I = map[string]interface{}{GenKey(c, 8): genIfc(c, 1)}
+		case 1:
+			v.I = genInner(c)
+		default:
+			v.I = map[string]string{GenKey(c, 8): genStr(c)}
+		}
+		return v
+	})),
+	foldOnly(mk("InlineFolder", true, func(c *simkit.Choices) InlineFolder {
+		return InlineFolder{A: genStr(c), T: Celsius(c.N(100)), Z: genSlice(c, genStr)}
 	})),
 	mk("OmitAll", true, func(c *simkit.Choices) OmitAll {
 		o := OmitAll{B: c.Bool(), F: float32(c.N(100)) / 4}
